@@ -88,10 +88,22 @@ class TRef(T):
 class TObj(TRef):
     """instance of an in-repo class (exact class, so attribute resolution is static) with typed instance fields"""
 
+    DECLARED = {}      # class key -> shapes with declared fields that the loaded sidecars speak about
+
     def __init__(self, cls_key, **fields):
         self.cls_key = cls_key
         self.fields = fields
         self.cls = None  # resolved lazily by the engine
+        if fields:
+            TObj.DECLARED.setdefault(cls_key, []).append(self)
+
+    @staticmethod
+    def declared_field(cls_key, name):
+        """the shape the sidecars declare for attribute `name` of instances of this class (None if they do not, or disagree in kind)"""
+        found = [s.fields[name] for s in TObj.DECLARED.get(cls_key, []) if name in s.fields]
+        if found and all(type(f) is type(found[0]) and getattr(f, "kind", None) == getattr(found[0], "kind", None) for f in found):
+            return found[0]
+        return None
 
     def describe(self):
         return "Obj(%s)" % self.cls_key
